@@ -25,7 +25,26 @@ def build_case(rng, thorough):
 	kind = rng.choice(['single', 'single', 'multi', 'multi-keyed'])
 	if kind == 'single':
 		spec = simlib.gen_spec(rng, thorough)
-		return kind, spec, lambda: simlib.build_py(spec)[0]
+		randomise = rng.random() < .5
+		rs = rng.randint(0, 10 ** 6)
+		def build_single():
+			from stockpyl.demand_source import DemandSource
+			from stockpyl.disruption_process import DisruptionProcess
+			net = simlib.build_py(spec)[0]
+			if randomise:
+				r2 = random.Random(rs)
+				for n in net.nodes:
+					if n.demand_source is not None and n.demand_source.type is not None:
+						n.demand_source = r2.choice([
+							DemandSource(type='P', mean=r2.randint(2, 9)), DemandSource(type='N', mean=20, standard_deviation=3, round_to_int=True),
+							DemandSource(type='UD', lo=1, hi=r2.randint(3, 8)), DemandSource(type='UC', lo=1, hi=6),
+							DemandSource(type='CD', demand_list=[1, 3, 6], probabilities=[0.25, 0.5, 0.25])])
+					if n.disruption_process is not None and r2.random() < .5:
+						n.disruption_process = DisruptionProcess(random_process_type='M', disruption_type=n.disruption_process.disruption_type,
+																 disruption_probability=0.2, recovery_probability=0.5)
+			return net
+		spec = dict(spec, random_sources=randomise)
+		return kind, spec, build_single
 	spec = mplib.gen_mp_spec(rng, thorough)
 	keyed = kind == 'multi-keyed'
 	def build():
